@@ -63,6 +63,9 @@ def run(res):
                                "impl": r["rdec_impl"][:2000], "model": r["rdec_model"][:2000], "tags": ["reader-diff"]})
     from props.leaf_corr import run_leaf_corr
     run_leaf_corr(res, rng, thorough)
+    # 64-bit-word level: the compressor's range lookup table against Words.v (own rng stream)
+    from props.words_corr import run_words_corr
+    run_words_corr(res, random.Random(res.seed + 17), thorough, parts=("table",))
     # extraction cross-check: the same decode evaluated inside Coq (vm_compute in the kernel's VM)
     small = [r for r in out if r["comp"] is not None and len(r["comp"]["hex"]) <= 300][:24]
     shard = [(r["case"]["dt"], r["comp"]["hex"]) for r in small]
